@@ -5,6 +5,7 @@ import (
 	"io/fs"
 	"math/rand/v2"
 	"strings"
+	"syscall"
 
 	"github.com/avfs/avfs"
 	"github.com/avfs/avfs/vfs/basepathfs"
@@ -133,6 +134,39 @@ func c10History(c *rt.Ctx, fsType string, h int) {
 	before := outside()
 	openedWith := map[int]string{}
 	namesInside := false
+	if fm, ok := avfs.VFS(bp).(interface{ SetFeatures(avfs.Features) error }); ok && fsType == "MemFS" && h%5 == 2 {
+		// the feature flags are public and advisory: a wrapper told that it "has" symbolic links still confines. Links
+		// with targets outside B are asked for through the wrapper; whether it creates them or not, nothing reached
+		// through them may be outside B. (Not compared with the standalone reference, which has real links.)
+		_ = fm.SetFeatures(bp.Features() | avfs.FeatSymlink | avfs.FeatHardlink)
+		for li, target := range []string{"/" + c10Canary, "/outside", "../../../../" + c10Canary, sibling, sibling + "/w/b", "/", ".."} {
+			lk := fmt.Sprintf("/lk%d", li)
+			for _, po := range []fsx.Op{{K: "Symlink", P: target, Q: lk}, {K: "Readlink", P: lk}, {K: "ReadFile", P: lk}, {K: "ReadDir", P: lk}, {K: "ReadFile", P: lk + "/w/b"}, {K: "ReadFile", P: lk + "/" + c10Canary},
+				{K: "WriteFile", P: lk + "/through-link", Data: "x", Perm: 0o644}, {K: "OpenWriteClose", P: lk, Flag: syscall.O_WRONLY | syscall.O_APPEND, Data: "+"}, {K: "EvalSymlinks", P: lk}, {K: "RemoveAll", P: lk + "/w"}} {
+				x := env.Exec(po)
+				hist = append(hist, fmt.Sprintf("flagged: %s -> %s", po, x))
+				c.Rep.Case(fmt.Sprintf("%s|flagged-symlink|%s|%s", fsType, po.K, x.Err), true)
+				if fatalRes(x) {
+					return
+				}
+				if now := outside(); now != before {
+					c.Disagree(fmt.Sprintf("%s|flagged-symlink|%s|outside-changed", fsType, po.K), fmt.Sprintf("BasePathFS(%s,%s) told it has symbolic links: %s changed the base file system outside the base directory: %v", fsType, B, po, diffText(before, now)), replay())
+					return
+				}
+				for _, txt := range []string{x.Val, x.Raw} {
+					if strings.Contains(txt, c10Canary+"-bytes") || (po.K != "Readlink" && po.K != "Symlink" && strings.Contains(txt, c10Canary) && !strings.Contains(po.P+po.Q, c10Canary)) || (strings.Contains(txt, "BASE") && !strings.Contains(po.P+po.Q, "BASE")) {
+						c.Disagree(fmt.Sprintf("%s|flagged-symlink|%s|reads-outside", fsType, po.K), fmt.Sprintf("BasePathFS(%s,%s) told it has symbolic links: %s returns %q: content, names or the path of what exists only outside the base directory", fsType, B, po, txt), replay())
+						return
+					}
+				}
+			}
+			_ = base.Remove(B + lk) // whatever was created is taken away again from the base side
+		}
+		if a, b := insideSnap().String(), fsx.Snap(ref, "/", fsx.SnapOpts{}).String(); a != b {
+			c.Disagree(fsType+"|flagged-symlink|inside-changed", fmt.Sprintf("BasePathFS(%s,%s) told it has symbolic links: the calls through links changed the content of the base directory: %v", fsType, B, diffText(b, a)), replay())
+			return
+		}
+	}
 	for i := 0; i < 100; i++ {
 		s := fsx.Snap(ref, "/", fsx.SnapOpts{})
 		cwd, _ := ref.Getwd()
